@@ -276,14 +276,14 @@ def run_nonstrict(stats, vs):
     w = U.world()
     built = {"polars": W.build(w, "polars"), "sqlite": W.build(w, "sqlite")}
     built.update({d: D.build(w, d) for d in DIALECTS})
-    targets = {"int32": pdt.Int32, "int64": pdt.Int64, "float64": pdt.Float64, "str": pdt.String, "date": pdt.Date, "datetime": pdt.Datetime}
+    targets = {"int32": pdt.Int32, "int64": pdt.Int64, "float64": pdt.Float64, "str": pdt.String, "date": pdt.Date, "datetime": pdt.Datetime, "int": pdt.Int}
     pairs = [("bool", "int32"), ("bool", "int64"), ("bool", "float64"), ("str", "int64"), ("str", "float64"), ("int64", "str"), ("float64", "str"),
-             ("float64", "int32"), ("int64", "float64"), ("int8", "int64"), ("date", "datetime"), ("datetime", "date"), ("date", "str"), ("datetime", "str")]
+             ("float64", "int32"), ("int64", "float64"), ("int8", "int64"), ("int64", "int"), ("int8", "int"), ("int64", "int32"), ("date", "datetime"), ("datetime", "date"), ("date", "str"), ("datetime", "str")]
     try:
         for src, tgt in pairs:
             for b, bl in built.items():
                 tbl = bl.tables["T"]
-                for shape in ("col", "expr"):
+                for shape in ("col", "expr", "lit"):
                     stats["states"] += 1
                     stats["transitions"] += 1
                     label = f"cast({shape}:{src} -> {tgt}, strict=False)"
@@ -293,6 +293,10 @@ def run_nonstrict(stats, vs):
                             x = tbl[f"c_{src}"]
                             if shape == "expr":
                                 x = x.fill_null(x)
+                            elif shape == "lit":
+                                if src not in U.LITERALS or src in ("date", "datetime"):
+                                    continue
+                                x = pdt.lit(U.LITERALS[src])
                             t2 = tbl >> pdt.mutate(y=x.cast(targets[tgt](), strict=False)) >> pdt.filter(pdt.C.k >= 1)
                             if b in ("polars", "sqlite"):
                                 t2 >> pdt.export(pdt.Polars())
